@@ -771,6 +771,10 @@ pub fn batched<F: Fn(u64) -> Option<String>>(from: u64, to: u64, per_batch: u64,
                 found.push((at, format!("memory fault at {:#x} ({})", sh.fault_addr, if sh.fault_seen == 1 { "guard page / freed block" } else { "outside the arena" })));
                 i = at + 1;
             }
+            ChildEnd::Exit(c) if c == crate::alloc::EXIT_BAD_LAYOUT => {
+                found.push((at, format!("allocator contract broken: {}", crate::alloc::bad_layout_text())));
+                i = at + 1;
+            }
             ChildEnd::Exit(c) => {
                 found.push((at, format!("child exited with status {c}")));
                 i = at + 1;
